@@ -11,6 +11,7 @@
   leaves the rest of the source untouched and the destination `eqv`-equal to the value.
 -/
 import GoMC.Lemmas.Fields
+import GoMC.Lemmas.PkNBTField
 import GoMC.Gen.Packet
 namespace GoMC.Props.C06
 open GoMC GoMC.Model GoMC.Spec GoMC.Lemmas
@@ -169,6 +170,95 @@ theorem C06_layout_position (p : Pos) :
   obtain ⟨x, y, z⟩ := p
   show toBE 8 (posPackW x z y).toNat = _
   rw [toBE_eq_be, pack_toNat]
+
+
+/-! ### NBTField (`pk.NBT(v)`): counting writer/reader around the NBT codec
+
+One model serves C02 and C06: `Go.fieldRead cx allow ty old` / `Go.fieldWrite cx v` (Model/NBTField.lean, on the
+typed NBT codec) is `NBTField{V: &dst, AllowUnknownFields: allow}.ReadFrom` for a destination of type `ty` holding
+`old`, and `NBTField{V: v}.WriteTo`. C02 proves, for every type and every well-shaped prior value: never panics
+(`C02_field_read_no_panic`, `C02_field_write_no_panic`), fragmentation invariance (`C02_field_read_fragInv`), the
+count is the number of bytes consumed and the rest is untouched (`C02_field_read_count`), and the round trip with
+both counts into a FRESH variable on the plain fragment (`C02_field_roundtrip_plain`). What C06 adds is the
+destination's PRIOR STATE. Documents are network-format encodings `encDoc .network [] t` of well-formed trees whose
+strings are shorter than 2^15 (`S15`, C01's known finding). -/
+
+section NBTField
+open GoMC.Model.Go GoMC.Model.NBTF GoMC.Lemmas.NBTDecode GoMC.Lemmas.PkNBTField
+
+/-- `WriteTo` returns the number of bytes it produced; a nil `V` is the single TAG_End byte -/
+theorem C06_nbt_count_write (cx : SnbtCarrier) (v : Option GoVal) (bs : Bytes) (n : Nat)
+    (h : fieldWrite cx v = Res.ok (bs, n)) : n = bs.length := by
+  unfold fieldWrite at h
+  cases v with
+  | none => simp only [Res.ok.injEq, Prod.mk.injEq] at h; rw [← h.1, ← h.2]; rfl
+  | some x =>
+    simp only at h
+    split at h
+    · simp only [Res.ok.injEq, Prod.mk.injEq] at h; rw [← h.1, ← h.2]
+    · simp at h
+    · simp at h
+
+/-- "no value": a lone TAG_End is one byte, count 1, and the destination is ZEROED — for every destination type
+(but `dynbt.Value`, which stores TAG_End itself) and whatever it held before (the repaired code; before, a reused
+destination kept its old value) -/
+theorem C06_nbt_absent (cx : SnbtCarrier) (allow : Bool) (ty : GoType) (old : GoVal) (hty : ty ≠ .dyn)
+    (s : Stream) (rest : Bytes) (hs : s.flat = 0#8 :: rest) :
+    ∃ s', fieldRead cx allow ty old s = (Res.ok (ty.zero, 1), s') ∧ s'.flat = rest ∧ s'.failing = s.failing :=
+  fieldRead_absent cx allow ty old hty s rest hs
+
+/-- `*RawMessage`: tag and exact payload, count = length of the document, rest untouched — for EVERY prior value -/
+theorem C06_nbt_roundtrip_raw (cx : SnbtCarrier) (allow : Bool) (t : Spec.NBT) (old : GoVal) (s : Stream) (rest : Bytes)
+    (hwf : t.WF) (hs15 : S15 t) (hs : s.flat = Spec.encDoc .network [] t ++ rest) :
+    ∃ s', fieldRead cx allow .raw old s =
+        (Res.ok (.raw t.tag (Spec.encPayload t), (Spec.encDoc .network [] t).length), s')
+      ∧ s'.flat = rest ∧ s'.failing = s.failing :=
+  fieldRead_raw cx allow t old s rest hwf hs15 hs
+
+/-- `*any` holding nil: the Go tree of the document. (An `any` that already holds a value is decoded by package
+nbt into a new value of the held value's type — DESIGN §8 C01 — so the result depends on the prior value: known
+finding C06.nbt-any-keeps-dynamic-type, witness `C06_nbt_any_prior_witness`.) -/
+theorem C06_nbt_roundtrip_any (cx : SnbtCarrier) (allow : Bool) (t : Spec.NBT) (s : Stream) (rest : Bytes)
+    (hwf : t.WF) (hs15 : S15 t) (hs : s.flat = Spec.encDoc .network [] t ++ rest) :
+    ∃ s', fieldRead cx allow .iface (.iface none) s =
+        (Res.ok (.iface (some (ofAny (goAny t))), (Spec.encDoc .network [] t).length), s')
+      ∧ s'.flat = rest ∧ s'.failing = s.failing :=
+  fieldRead_any cx allow t s rest hwf hs15 hs
+
+/-- an NBT field read into a `*RawMessage` is a round-tripping codec in the sense of `RT` (every prior destination),
+so the parametric combinator theorems nest it at any depth: -/
+theorem C06_nbt_cell_raw (cx : SnbtCarrier) (allow : Bool) : RT (cellC cx allow .raw) CellDom CellEqvRaw :=
+  rt_cell_raw cx allow
+theorem C06_nbt_in_ary (cx : SnbtCarrier) (l : LenKind) (allow : Bool) :
+    RT (aryC l (cellC cx allow .raw)) (aryDom l CellDom) (sliceEqv CellEqvRaw) := rt_ary l (rt_cell_raw cx allow)
+theorem C06_nbt_in_option (cx : SnbtCarrier) (allow : Bool) :
+    RT (optionC (cellC cx allow .raw)) (optDom CellDom) (optEqv CellEqvRaw) := rt_option (rt_cell_raw cx allow)
+theorem C06_nbt_in_tuple {α} (cx : SnbtCarrier) (allow : Bool) (a : Codec α) (da ea) (ha : RT a da ea) :
+    RT (pairC a (cellC cx allow .raw)) (fun v => da v.1 ∧ CellDom v.2) (fun d v => ea d.1 v.1 ∧ CellEqvRaw d.2 v.2) :=
+  rt_pair ha (rt_cell_raw cx allow)
+
+/-- a strict prefix of a document is never accepted (`*RawMessage`, every prior value) -/
+theorem C06_nbt_truncated_fails (cx : SnbtCarrier) (allow : Bool) (t : Spec.NBT) (old : GoVal) (hwf : t.WF)
+    (hs15 : S15 t) (pre more : Bytes) (hdoc : Spec.encDoc .network [] t = pre ++ more) (hmore : more ≠ [])
+    (u : Stream) (hu : u.flat = pre) : ∀ b, (fieldRead cx allow .raw old u).1 ≠ Res.ok b :=
+  fieldRead_raw_prefix cx allow t old hwf hs15 pre more hdoc hmore u hu
+
+/-- witnesses of the recorded prior-state findings (package nbt decodes INTO what the destination holds):
+an `any` holding an int32 refuses a String document that a nil `any` accepts; a `map[string]any` keeps the
+entries it had -/
+theorem C06_nbt_any_prior_witness (cx : SnbtCarrier) :
+    (fieldRead cx false .iface (.iface (some (.int .i32 7))) (Stream.ofBytes [8#8, 0#8, 2#8, 0x68#8, 0x69#8])).1 = Res.err ∧
+    (fieldRead cx false .iface (.iface none) (Stream.ofBytes [8#8, 0#8, 2#8, 0x68#8, 0x69#8])).1
+      = Res.ok (.iface (some (.str [0x68#8, 0x69#8])), 5) := by
+  constructor <;> rfl
+
+theorem C06_nbt_map_prior_witness (cx : SnbtCarrier) :
+    (fieldRead cx false (.map .iface) (.map .iface false [([0x6f#8], .iface (some (.int .i8 1)))])
+        (Stream.ofBytes [10#8, 1#8, 0#8, 1#8, 0x71#8, 5#8, 0#8])).1
+      = Res.ok (.map .iface false [([0x6f#8], .iface (some (.int .i8 1))), ([0x71#8], .iface (some (.int .i8 5)))], 7) := by
+  rfl
+
+end NBTField
 
 /-! ### Non-vacuity -/
 
